@@ -42,7 +42,7 @@ def run(ctx):
             ctx.absorb_meta(meta)
             ctx.correspond("Garble/Eval/Compute byte-exact (seed %d)" % s, ops, out)
             distinct_ops(ctx, ops)
-        if ctx.broken and not ctx.fails:
+        if ctx.widen:
             # widened search for a concrete failing input (oracle only)
             for s in range(ctx.seed + 7000, ctx.seed + 7006):
                 ops, out, meta = ctx.run_hx("garble", 3000, seed=s, tag="-widen")
